@@ -1,14 +1,19 @@
 -- driver: nodes Um.Drv.Nodes
 import UmModel.ClusterNodes
+import UmModel.ClusterNodesHist
 import UmDriver.Common
 /-!
 Line protocol of the C14 correspondence stream (`umh_nodes`):
 
-* `cfg v=<1|2> ar=<0|1> me=<announce address>` → `ok` (fresh proxy: nothing installed)
-* `install <name|-> <epoch> <local nodes|-> <peer nodes|->` → `OK`
-  `<nodes>` = `addr=SR/SR…;addr=…`, `SR` = `<N|M|I>:<s-e,s-e…>` (tag kind + range list as installed)
-* `states <rangelist>=<State>;…|-` → the phase map, canonical (`get_states`; read by the harness from
-  `UMCTL INFO` after driving the real handshake handlers)
+* `cfg v=<1|2> ar=<0|1> me=<announce address>` → `ok` (fresh proxy process: nothing installed, no task)
+* `install <name|-> <epoch> <local nodes|-> <peer nodes|->` → `OK` / `E:OLD_EPOCH` / `E:ERR_NOT_MY_META`
+  (`MetaManager::set_meta` on the **same** proxy: tasks of unchanged tagged ranges are kept with their phase,
+  every other tagged local range gets a task in `PreCheck`, tasks of vanished ranges are dropped)
+  `<nodes>` = `addr=SR/SR…;addr=…`, `SR` = `<N|M|I>:<s-e,s-e…>[@<epoch>~<src proxy>~<src node>~<dst proxy>~<dst node>]`
+  (tag kind + range list as installed + the `MigrationMeta` of the tag: it is part of the task key)
+* `tasks` → the phase of every task of the model's task map, canonical (what `UMCTL INFO` lists)
+* `states <rangelist>=<State>;…|-` → the harness moved tasks to these phases through the real handshake
+  (read back from `UMCTL INFO`); the model's tasks take them over; `TASKS-MISMATCH` if the task sets differ
 * `nodes` → canonical `CLUSTER NODES` reply (lines sorted, slot tokens of a line sorted, `|`-joined)
 * `slots` → canonical `CLUSTER SLOTS` reply (`start-end@host:port#id` sorted, `|`-joined; `E:<text>` on error)
 * `probe <slot>` → the routing outcome of a command whose key hashes to `<slot>` (`routeSlot`, only for slots
@@ -21,8 +26,7 @@ open Um Um.Route Um.RouteCmd Um.Nodes
 structure St where
   cfg : RouteCfg := {}
   ver : Version := .v2
-  vw : View := View.empty ""
-  tasks : List (RangeL × MigState) := []
+  h : Hist := Hist.init {} "" ""
 
 def str (b : Bytes) : String := String.ofList (b.map fun x => Char.ofNat x.toNat)
 
@@ -34,24 +38,37 @@ def parseRange (s : String) : Option (Nat × Nat) :=
 def parseRangeList (s : String) : Option RangeL :=
   if s.isEmpty then some [] else (s.splitOn ",").mapM parseRange
 
-def parseSR (s : String) : Option SlotRange :=
-  match s.splitOn ":" with
-  | [k, rl] =>
-    let tag : Option TagKind :=
-      if k == "N" then some .none else if k == "M" then some .migrating else if k == "I" then some .importing else none
-    match tag, parseRangeList rl with
-    | some t, some l => some { ranges := l, tag := t }
-    | _, _ => none
+def parseInfo (s : String) : Option Um.Broker.MigInfo :=
+  match s.splitOn "~" with
+  | [e, sp, sn, dp, dn] => e.toNat?.map fun n => ⟨n, sp, sn, dp, dn⟩
   | _ => none
 
-def parseNode (s : String) : Option (Addr × List SlotRange) :=
+/-- `<N|M|I>:<ranges>[@<meta>]` -/
+def parseSR (s : String) : Option Um.Broker.SlotRange :=
+  let k := (s.take 1).toString
+  let rest := (s.drop 2).toString
+  if (s.drop 1).toString.take 1 != ":" then none
+  else
+    let (rl, info) : String × Option Um.Broker.MigInfo :=
+      match rest.splitOn "@" with
+      | [r, m] => (r, parseInfo m)
+      | _ => (rest, some ⟨0, "", "", "", ""⟩)
+    match parseRangeList rl, info with
+    | some l, some i =>
+      if k == "N" then some ⟨l, .none⟩
+      else if k == "M" then some ⟨l, .migrating i⟩
+      else if k == "I" then some ⟨l, .importing i⟩
+      else none
+    | _, _ => none
+
+def parseNode (s : String) : Option (String × List Um.Broker.SlotRange) :=
   match s.splitOn "=" with
   | [a, srs] =>
     if srs.isEmpty then some (a, [])
     else ((srs.splitOn "/").mapM parseSR).map fun l => (a, l)
   | _ => none
 
-def parseNodeSlots (s : String) : Option NodeSlots :=
+def parseNodeSlots (s : String) : Option Um.E2E.SNodeMap :=
   if s == "-" then some [] else (s.splitOn ";").mapM parseNode
 
 def parseKv (pre : String) (s : String) : Option String :=
@@ -114,31 +131,55 @@ def renderTasks (ts : List (RangeL × MigState)) : String :=
   let items := (ts.map fun t => renderRangeList t.1 ++ "=" ++ t.2.name).mergeSort fun a b => a < b || a == b
   if items.isEmpty then "-" else ";".intercalate items
 
+def hostOfAddr (a : String) : String := (a.splitOn ":").headD ""
+
+def sameKeys (a b : List RangeL) : Bool :=
+  let sa := (a.map renderRangeList).mergeSort fun x y => x < y || x == y
+  let sb := (b.map renderRangeList).mergeSort fun x y => x < y || x == y
+  sa == sb
+
 def step (st : St) (toks : List String) : St × String :=
   match toks with
   | ["cfg", v, ar, me] =>
     match parseKv "v=" v, parseKv "ar=" ar, parseKv "me=" me with
     | some v, some a, some m =>
-      ({ cfg := { activeRedirection := a == "1" }, ver := if v == "1" then .v1 else .v2,
-         vw := View.empty m, tasks := [] }, "ok")
+      let cfg : RouteCfg := { activeRedirection := a == "1" }
+      ({ cfg := cfg, ver := if v == "1" then .v1 else .v2, h := Hist.init cfg m (hostOfAddr m) }, "ok")
     | _, _, _ => (st, "bad-op")
   | ["install", name, epoch, l, p] =>
     match epoch.toNat?, parseNodeSlots l, parseNodeSlots p with
     | some e, some loc, some peer =>
       let nm := if name == "-" then "" else name
-      ({ st with vw := { name := nm, epoch := e, me := st.vw.me, loc := loc, peer := peer }, tasks := [] }, "OK")
+      let m : Um.E2E.EMeta :=
+        { epoch := e, force := false, compress := false, cluster := nm, loc := loc, peer := peer,
+          config := Um.Proto.Config.default }
+      let (h', r) := st.h.setMeta m
+      ({ st with h := h' },
+        match r with
+        | .ok => "OK"
+        | .oldEpoch => "E:OLD_EPOCH"
+        | .notMyMeta => "E:ERR_NOT_MY_META")
     | _, _, _ => (st, "bad-op")
+  | ["tasks"] => (st, renderTasks (taskStates st.h.p.tasks))
   | ["states", spec] =>
-    if spec == "-" then ({ st with tasks := [] }, "-")
-    else
-      match (spec.splitOn ";").mapM parseTask with
-      | some ts => ({ st with tasks := ts }, renderTasks ts)
-      | none => (st, "bad-op")
-  | ["nodes"] => (st, canonNodes (genClusterNodes st.vw (getStates st.tasks) st.ver))
-  | ["slots"] => (st, canonSlots (genClusterSlots st.vw (getStates st.tasks)))
+    let parsed : Option (List (RangeL × MigState)) :=
+      if spec == "-" then some [] else (spec.splitOn ";").mapM parseTask
+    match parsed with
+    | none => (st, "bad-op")
+    | some ts =>
+      if !sameKeys (ts.map (·.1)) (st.h.p.tasks.map (·.key.range.ranges)) then
+        (st, "TASKS-MISMATCH model=" ++ renderTasks (taskStates st.h.p.tasks))
+      else
+        let tasks' := st.h.p.tasks.map fun t =>
+          match ts.find? (fun e => e.1 == t.key.range.ranges) with
+          | some e => { t with state := stateTo e.2 }
+          | none => t
+        ({ st with h := { st.h with p := { st.h.p with tasks := tasks' } } }, renderTasks ts)
+  | ["nodes"] => (st, canonNodes (st.h.nodes st.ver))
+  | ["slots"] => (st, canonSlots st.h.slots)
   | ["probe", s] =>
     match s.toNat? with
-    | some slot => (st, renderOutcome (routeSlot st.cfg (st.vw.clusterMap st.cfg) none (some slot)))
+    | some slot => (st, renderOutcome (routeSlot st.cfg (st.h.vw.clusterMap st.cfg) none (some slot)))
     | none => (st, "bad-op")
   | _ => (st, "bad-op")
 
